@@ -7,6 +7,8 @@
                                   -> ok <hex of the WBXML produced> | err <code>
      r <forced> <meta> <hexdoc1> <hexdoc2>   ONE parser object parses doc1, then doc2 (reuse)
                                   -> <answer for doc1> ; <answer for doc2>   (each as for w)
+     t <rev|dropN> <forced> <meta> <hexdoc>   as w, after wbxml_parser_set_main_table(custom table): the standard
+                                  entries in reverse order / without the first N
      m                            -> number of main-table entries before langID == UNKNOWN, and before publicID == NULL */
 #include "vh.h"
 #include "wbxml.h"
@@ -32,6 +34,27 @@ int main(void) {
             wbxml_parser_set_content_handler(p, &h);
             wbxml_parser_set_language(p, (WBXMLLanguage) strtoul(tok[1], NULL, 10));
             wbxml_parser_set_meta_charset(p, (WBXMLCharsetMIBEnum) atoi(tok[2]));
+            r = wbxml_parser_parse(p, doc, (WB_ULONG) len);
+            if (got_called) printf("ok %d %d\n", got_lang, got_charset);
+            else printf("err %d\n", (int) r);
+            wbxml_parser_destroy(p); free(doc);
+        } else if (tok[0][0] == 't' && n == 5) {
+            static WBXMLLangEntry custom[256];
+            const WBXMLLangEntry *mt = wbxml_tables_get_main();
+            size_t len; unsigned char *doc = vh_unhex(tok[4], &len);
+            WBXMLParser *p = wbxml_parser_create();
+            WBXMLContentHandler h = { start_doc, NULL, NULL, NULL, NULL, NULL };
+            WBXMLError r;
+            int cnt = 0, k, m = 0;
+            while (mt[cnt].langID != WBXML_LANG_UNKNOWN && cnt < 254) cnt++;
+            memset(custom, 0, sizeof(custom));
+            if (strcmp(tok[1], "rev") == 0) { for (k = 0; k < cnt; k++) custom[m++] = mt[cnt - 1 - k]; }
+            else { int d = atoi(tok[1] + 4); for (k = d; k < cnt; k++) custom[m++] = mt[k]; }
+            got_called = 0; got_lang = -1; got_charset = 0;
+            wbxml_parser_set_content_handler(p, &h);
+            wbxml_parser_set_main_table(p, custom);
+            wbxml_parser_set_language(p, (WBXMLLanguage) strtoul(tok[2], NULL, 10));
+            wbxml_parser_set_meta_charset(p, (WBXMLCharsetMIBEnum) atoi(tok[3]));
             r = wbxml_parser_parse(p, doc, (WB_ULONG) len);
             if (got_called) printf("ok %d %d\n", got_lang, got_charset);
             else printf("err %d\n", (int) r);
